@@ -55,6 +55,7 @@ GATES = {
     "account-and-offsets": ["account:0", "account:1", "account:2^31-2", "account:2^31-1", "account:other", "offset:0", "offset:1", "offset:2^31-1", "offset:other", "branch:receive", "branch:change"],
     "path-notations": ["path:h", "path:'", "path:H", "path:empty", "path:deep"],
     "sorting-matters": ["sort:child-order-differs-from-parent-order", "sort:child-order-same-as-parent-order", "sort:supplied-order-differs-from-text-order", "perm:all-permutations", "perm:address-on-permuted"],
+    "shared-fingerprint": ["class:records-share-fingerprint"],
     "roundtrip": ["parse:canonical-accepted", "init:with-correct-checksum"],
     "negative-classes": ["subst:" + r for r in REGIONS] + ["parse:tagged-substitution", "neg:wrong-checksum-parse", "neg:wrong-checksum-init", "neg:checksum-of-other-descriptor"],
     "exhaustive-substitution": {"quick": [], "thorough": ["subst:exhaustive-descriptor"]},
@@ -612,6 +613,15 @@ def run_shard(desc, ctx):
             acct = ACCOUNTS[(idx + 2 * j + k) % len(ACCOUNTS)] if (j + k) % 2 == 0 else None
             path = PATHS[(idx + j + k) % len(PATHS)]
             records.append(make_record(ctx, rng, network, ver, acct, path))
+        # one seed contributing several accounts (or the 00000000 placeholder): records that share a fingerprint
+        # but not a key - nothing in the address may be keyed on the fingerprint
+        if nn >= 2 and j % 3 == 1:
+            shared = "00000000" if (idx + j) % 2 else records[0]["xfp"]
+            acct0 = records[0]["account_index"]
+            for r in records:
+                r["xfp"] = shared
+                r["account_index"] = acct0
+            ctx.count("class:records-share-fingerprint")
         d = descriptor_case(ctx, rng, m, records, p)
         if d is not None:
             built.append((d, m, records))
